@@ -84,7 +84,8 @@ def alg_table(rep, prog, rule):
              "resample_convolution(adaptive = true), Interpolation to resample_convolution("
              "adaptive = false), SuperSampling to resample_super_sampling, which itself convolves "
              "with adaptive = true; the use_alpha flag passed on is options.mul_div_alpha")
-    f = prog.fn_by_name("resizer::Resizer::resize_typed")
+    from ..engines import flow as _flow
+    f = _flow.pipeline_body(prog)
     rep.touch(f)
     sym = Sym(f)
     variants = enum_variants(prog, "resizer::ResizeAlg")
@@ -131,7 +132,11 @@ def alg_table(rep, prog, rule):
             continue
         c = calls[0]
         if adaptive is not None:
-            a = sym.operand(c.args[4], (c.bb, "term"))
+            a = _arg_named(prog, c, sym, "adaptive_kernel_size")
+            if a is None:
+                rep.unk(rule, key, c.at, "argument `adaptive_kernel_size` of %s not found (neither a "
+                        "parameter nor a field of a struct argument)" % fn_want)
+                continue
             arm = sw.arm_blocks(tgt) | {tgt}
             for _ in range(4):
                 # a value selected by the match: take the definition made in this arm
@@ -152,7 +157,10 @@ def alg_table(rep, prog, rule):
                 rep.bad(rule, key + "|adaptive", c.at, "ResizeAlg::%s passes adaptive_kernel_size "
                         "= %s, expected %s" % (vn, fmt(a), adaptive))
                 continue
-        ua = sym.operand(c.args[-1]) if vn != "Nearest" else None
+        ua = _arg_named(prog, c, sym, "use_alpha") if vn != "Nearest" else None
+        if ua is None and vn != "Nearest":
+            rep.unk(rule, key, c.at, "argument `use_alpha` of %s not found" % fn_want)
+            continue
         if ua is not None and "mul_div_alpha" not in fmt(ua):
             rep.bad(rule, key + "|use_alpha", c.at, "use_alpha argument is %s" % fmt(ua))
             continue
@@ -163,8 +171,10 @@ def alg_table(rep, prog, rule):
     gs = Sym(g)
     rep.touch(g)
     for i, c in enumerate([c for c in g.calls() if c.name.endswith("resample_convolution")]):
-        a = gs.operand(c.args[4])
-        if a == ("const", True, "bool"):
+        a = _arg_named(prog, c, gs, "adaptive_kernel_size")
+        if a is None:
+            rep.unk(rule, "supersampling#%d" % i, c.at, "argument `adaptive_kernel_size` not found")
+        elif a == ("const", True, "bool"):
             rep.ok(rule, "supersampling#%d" % i, c.at, "adaptive = true")
         else:
             rep.bad(rule, "supersampling|adaptive#%d" % i, c.at, "SuperSampling convolves with "
@@ -303,6 +313,28 @@ def window_clamp(rep, prog, rule):
         rep.ok(rule, "normalise", f.loc, "weights divided by their sum")
     else:
         rep.bad(rule, "normalise", f.loc, "no division of the weights by their sum found")
+
+
+def _arg_named(prog, c, sym, name):
+    """the value a call passes for the callee's parameter `name`, also when the options travel in
+    a struct argument (then the field of the aggregate built at the call site)"""
+    tg = prog.call_targets(c)
+    if len(tg) == 1:
+        g = tg[0]
+        for i in range(1, g.arg_count + 1):
+            if g.local_name(i) == name and i - 1 < len(c.args):
+                return sym.operand(c.args[i - 1], (c.bb, "term"))
+    for a in c.args:
+        e = sym.operand(a, (c.bb, "term"))
+        while isinstance(e, tuple) and e and e[0] in ("ref", "deref"):
+            e = e[1]
+        if isinstance(e, tuple) and e and e[0] == "agg" and e[1] == "adt":
+            adt = prog.adts.get(e[2])
+            if adt and len(adt["variants"]) == 1:
+                fields = [x[0] for x in adt["variants"][0]["fields"]]
+                if name in fields and fields.index(name) < len(e[4]):
+                    return e[4][fields.index(name)]
+    return None
 
 
 def supersampling_size(rep, prog, rule):
